@@ -14,8 +14,10 @@ zero, weights drawn; reinitialize (also after training, all parameters non-zero)
 tensor changed, no stale trained value left (a bias is back at zero or redrawn), all networks, no object identity
 demanded; fit without bases for complex / mixed -> refused (any exception), no callback event, no optimizer
 constructed, parameters and torch RNG state unchanged; aux_bias of rbm_ph exactly 0 after real training with SGD, SGD+momentum, Adam, and the
-aux-bias block of every phase-gradient function exactly zero."""
-import copy, time
+aux-bias block of every phase-gradient function exactly zero.
+Red-team round 2: size arguments in numpy / float encodings (enc_sz), user subclasses of the RBM classes and zero_weights=True
+modules as module= (make_module, check_phase_copy), `s.rbm_am is module` after reinitialising a module-built state."""
+import copy, time, itertools
 import numpy as np
 
 RULE = ("histories of 6..14 (quick) / 10..24 (thorough) construction operations over the three state types x "
@@ -23,9 +25,23 @@ RULE = ("histories of 6..14 (quick) / 10..24 (thorough) construction operations 
         "several states; size arguments agreeing or DISAGREEING with the module)}, nv 1..4, nh 0..5, na 0..3; a case is one history; non-trivial := it "
         "builds a two-network state from module= or sizes with nh != nv and then writes to one of its networks; "
         "plus fit-guard cases (3 kinds x bases given/absent x stop flag) and DensityMatrix training runs "
-        "(3 optimizers x architectures)")
+        "(3 optimizers x architectures); red-team round 2: every size argument (num_visible / num_hidden / num_aux of the states and of the RBM "
+        "modules, also next to module=) rotates through int, numpy.int64 / int32 / int8, an element of an integer array and a float holding an "
+        "integer; user-built modules are stock RBMs, USER SUBCLASSES of them (class-level override of effective_energy), modules built with "
+        "zero_weights=True, or both (fixed cases for every state type x gpu form first, then in the histories): rbm_ph must be of the module's "
+        "class with the module's effective energies, all-zero weights must be redrawn by reinitialize_parameters, and a state built from "
+        "module= still uses that module as its amplitude network after reinitialising")
 ASSUMPTIONS = ["data_ptr() identifies a parameter's storage (zero-size tensors are identified by object id)",
-               "the optimizers of the installed torch are coordinate-wise (SGD, SGD+momentum, Adam are checked by running them)"]
+               "the optimizers of the installed torch are coordinate-wise (SGD, SGD+momentum, Adam are checked by running them)",
+               "IN scope: a user subclass of BinaryRBM / PurificationRBM as module= (an instance of a subclass IS an instance of the documented "
+               "class; 'an independent copy of it' keeps its class and behaviour) — the subclasses generated override effective_energy at class level only",
+               "OUT of scope: module= whose parameters were re-registered with requires_grad=True (every RBM the library builds has requires_grad=False "
+               "parameters; getting others means replacing attributes of a live library object) and modules cast with .float() (module= is documented "
+               "as a BinaryRBM / PurificationRBM, whose parameters are double; fit() of a state built from a float32 module raises on the unchanged tree)",
+               "float-valued size arguments holding an integer (6.0) are generated because the RBM constructors coerce num_visible / num_hidden / "
+               "num_aux with int() on the unchanged tree (documented type: int)",
+               "after reinitialize_parameters only the identity of the amplitude NETWORK of a module=-built state is demanded (the statement: the state "
+               "uses that RBM; reinitialising redraws parameters); identity of Parameter objects and of the phase network is not"]
 
 PN = {"weights": 10, "visible_bias": 11, "hidden_bias": 12, "weights_W": 13, "weights_U": 14, "aux_bias": 15}
 PNAME = {v: k for k, v in PN.items()}
@@ -54,8 +70,95 @@ def cell_id(p):
     return ("e", id(p)) if p.numel() == 0 else ("p", p.data_ptr())
 
 
+_ROT = [0]
+_SUB = {}
+
+
+def enc_sz(ctx, x):
+    """a size argument (num_visible / num_hidden / num_aux) as a Python int, a numpy integer or a float holding an integer (what
+    np.arange scans, len-like numpy results and `alpha * n` hand over); None stays None.  Rotates deterministically."""
+    if x is None:
+        return None
+    _ROT[0] += 1
+    r = _ROT[0] % 7
+    x = int(x)
+    out = [x, np.int64(x), np.int32(x), float(x), x, np.arange(x, x + 1)[0], np.int8(x)][r]
+    ctx.count("size argument given as:" + type(out).__name__)
+    return out
+
+
+def rbm_subclasses():
+    """user subclasses of the library's RBM modules (an RBM with a temperature): instances ARE BinaryRBMs / PurificationRBMs, the
+    documented type of module=.  The override is at class level, so any way of copying the object keeps it."""
+    if not _SUB:
+        from qucumber.rbm import BinaryRBM, PurificationRBM
+
+        class TemperedRBM(BinaryRBM):
+            beta = 0.5
+
+            def effective_energy(self, v):
+                return self.beta * super().effective_energy(v)
+
+        class TemperedPRBM(PurificationRBM):
+            beta = 0.5
+
+            def effective_energy(self, v, a=None):
+                return self.beta * super().effective_energy(v, a)
+        _SUB.update(BinaryRBM=TemperedRBM, PurificationRBM=TemperedPRBM)
+    return _SUB
+
+
+def is_binary(rbm):
+    from qucumber.rbm import BinaryRBM
+    return isinstance(rbm, BinaryRBM)
+
+
+def make_module(ctx, kind, nv, nh, na, variant, **gk):
+    """a user-built RBM module.  variant: "stock" | "subclass" (user subclass of the library class) | "zero" (the documented
+    constructor flag zero_weights=True) | "subclass+zero"; kind 0 = BinaryRBM, 1 = PurificationRBM"""
+    from qucumber.rbm import BinaryRBM, PurificationRBM
+    cls = [BinaryRBM, PurificationRBM][kind]
+    if "subclass" in variant:
+        cls = rbm_subclasses()[cls.__name__]
+    kw = dict(gk)
+    if "zero" in variant:
+        kw["zero_weights"] = True
+    ctx.count("module variant:" + variant)
+    return cls(enc_sz(ctx, nv), enc_sz(ctx, nh), **kw) if kind == 0 else cls(enc_sz(ctx, nv), enc_sz(ctx, nh), enc_sz(ctx, na), **kw)
+
+
+def check_phase_copy(ctx, s, m, what, case):
+    """the phase network is an independent COPY OF THE MODULE: the same class (a user subclass stays what it is) and the same
+    behaviour (effective energies of every basis state)"""
+    import torch
+    ctx.require(what + ": rbm_ph is of the module's class", type(s.rbm_ph) is type(m), case,
+                {"rbm_ph": type(s.rbm_ph).__name__, "module": type(m).__name__})
+    sp = torch.tensor(np.array([[(k >> (int(m.num_visible) - 1 - j)) & 1 for j in range(int(m.num_visible))]
+                                for k in range(2 ** int(m.num_visible))], dtype=float), dtype=torch.double).reshape(2 ** int(m.num_visible), int(m.num_visible))
+    ok, e = ctx.call(what + ": effective_energy of the module and of rbm_ph", case, lambda: (m.effective_energy(sp), s.rbm_ph.effective_energy(sp)))
+    if ok:
+        ctx.require(what + ": rbm_ph has the module's effective energies", e[0].shape == e[1].shape and torch.equal(e[0], e[1]), case,
+                    {"module": e[0].reshape(-1)[:4].tolist(), "rbm_ph": e[1].reshape(-1)[:4].tolist()})
+
+
+def check_phase_copy_class(ctx, s, m, case):
+    """after reinitialising, the networks are still RBMs of the classes they had (parameters are redrawn, nothing else)"""
+    ctx.require("reinitialize: the networks keep their classes", type(s.rbm_am) is type(m) and type(s.rbm_ph) is type(m), case,
+                {"rbm_am": type(s.rbm_am).__name__, "rbm_ph": type(s.rbm_ph).__name__, "module": type(m).__name__})
+
+
+def want_shapes(k, nv, nh, na):
+    """documented shapes: num_hidden / num_aux default to num_visible (BinaryRBM: also for an explicit 0)"""
+    if k < 2:
+        enh = nv if not nh else nh
+        return [("weights", (enh, nv)), ("visible_bias", (nv,)), ("hidden_bias", (enh,))]
+    enh = nv if nh is None else nh
+    ena = nv if na is None else na
+    return [("weights_W", (enh, nv)), ("weights_U", (ena, nv)), ("visible_bias", (nv,)), ("hidden_bias", (enh,)), ("aux_bias", (ena,))]
+
+
 def real_net(T, rbm):
-    kind = 0 if type(rbm).__name__ == "BinaryRBM" else 1
+    kind = 0 if is_binary(rbm) else 1
     sizes = [kind, int(rbm.num_visible), int(rbm.num_hidden), int(getattr(rbm, "num_aux", 0))]
     return [("n", id(rbm)), sizes, [[PN[n], cell_id(p), list(p.shape), T.val(p.data)] for n, p in rbm.named_parameters()]]
 
@@ -120,19 +223,23 @@ def module_gpu_cases(ctx):
     from qucumber.rbm import BinaryRBM, PurificationRBM
     CLS = [PositiveWaveFunction, ComplexWaveFunction, DensityMatrix]
     for k in range(3):
-        for form in ("omitted", "True", "False"):
+        for form, variant in itertools.product(("omitted", "True", "False"), ("stock", "subclass", "zero", "subclass+zero")):
             ctx.torch_seed()
-            m = BinaryRBM(2, 3, **gpu_kw(ctx, form)) if k < 2 else PurificationRBM(2, 3, 1, **gpu_kw(ctx, form))
-            for _, p in m.named_parameters():
-                p.data.add_(torch.tensor(ctx.rng.normal(size=tuple(p.shape)) + 0.1))
+            # stock module / user subclass of the library's RBM / built with the documented flag zero_weights=True
+            m = make_module(ctx, 0 if k < 2 else 1, 2, 3, 1, variant, **gpu_kw(ctx, form))
+            for n_, p in m.named_parameters():
+                if not ("zero" in variant and n_.startswith("weights")):
+                    p.data.add_(torch.tensor(ctx.rng.normal(size=tuple(p.shape)) + 0.1))
             before = snap(m)
-            case = {"module_ctor": CLS[k].__name__, "gpu": form}
+            case = {"module_ctor": CLS[k].__name__, "gpu": form, "module": variant}
             ctx.case(case, nontrivial=True)
-            ok, s = ctx.call("module= constructor", case, lambda: CLS[k](2, module=m, **gpu_kw(ctx, form)))
+            ok, s = ctx.call("module= constructor", case, lambda: CLS[k](enc_sz(ctx, 2), module=m, **gpu_kw(ctx, form)))
             if not ok:
                 continue
             ctx.require("module=: rbm_am IS the supplied module", s.rbm_am is m, case)
             ctx.require("module=: the module's parameters are unchanged", same(snap(m), before), case)
+            if k:
+                check_phase_copy(ctx, s, m, "module=", case)
             # a later in-place change of the module is a change of the state's amplitude network
             m.visible_bias.data.add_(1.0)
             ctx.require("module=: the state uses the module's parameters (a change of the module is seen by the state)",
@@ -168,27 +275,38 @@ def reinit_cases(ctx):
     CLS = [PositiveWaveFunction, ComplexWaveFunction, DensityMatrix]
     for k in range(3):
         for nv, nh, na in ((2, 3, 1), (3, 2, 2)):
-            for via_module in (False, True):
+            # built from sizes / from a stock module / from a user subclass of the library's RBM / from a module built with the
+            # documented flag zero_weights=True (then reinitialised at once: all-zero weights must be REDRAWN, not zeroed again)
+            for via_module in (False, "stock", "subclass", "zero", "subclass+zero"):
                 ctx.torch_seed()
+                m = None
                 if via_module:
-                    m = BinaryRBM(nv, nh, **gpu_kw(ctx)) if k < 2 else PurificationRBM(nv, nh, na, **gpu_kw(ctx))
-                    s = CLS[k](nv, module=m, **gpu_kw(ctx))
+                    m = make_module(ctx, 0 if k < 2 else 1, nv, nh, na, via_module, **gpu_kw(ctx))
+                    s = CLS[k](enc_sz(ctx, nv), module=m, **gpu_kw(ctx))
                 else:
-                    s = CLS[k](*((nv, nh) if k < 2 else (nv, nh, na)), **gpu_kw(ctx))
+                    s = CLS[k](*((enc_sz(ctx, nv), enc_sz(ctx, nh)) if k < 2 else (enc_sz(ctx, nv), enc_sz(ctx, nh), enc_sz(ctx, na))), **gpu_kw(ctx))
                 case = {"reinit": CLS[k].__name__, "nv": nv, "nh": nh, "na": na, "module": via_module}
                 ctx.case(case, nontrivial=True)
                 if not via_module:
                     weights_differ(ctx, s, "sizes constructor", case)
                 for rounds in range(2):
                     for net in s.networks:                  # stand-in for training: every parameter becomes non-zero
-                        for _, p in getattr(s, net).named_parameters():
+                        for n_, p in getattr(s, net).named_parameters():
+                            if via_module and "zero" in via_module and rounds == 0 and n_.startswith("weights"):
+                                continue                    # the all-zero weights the module was built with
                             p.data.copy_(torch.tensor(ctx.rng.normal(size=tuple(p.shape)) + 0.3).abs() + 0.05)
                     before = {net: snap(getattr(s, net)) for net in s.networks}
                     ok, _ = ctx.call("reinitialize_parameters", case, s.reinitialize_parameters)
                     if not ok:
                         break
                     for net in s.networks:
-                        check_reinitialised(ctx, net, before[net], snap(getattr(s, net)), case)
+                        check_reinitialised(ctx, net, before[net], snap(getattr(s, net)), dict(case, round=rounds))
+                    if via_module:
+                        # "uses that RBM as the amplitude network": reinitialising redraws PARAMETERS, the state keeps using the module
+                        ctx.require("reinitialize: a state built from module= still uses the supplied module as its amplitude network",
+                                    s.rbm_am is m, dict(case, round=rounds))
+                        if k and rounds == 0 and "subclass" in via_module:
+                            check_phase_copy_class(ctx, s, m, dict(case, round=rounds))
                     weights_differ(ctx, s, "reinitialize", case)
                     ctx.count("train_then_reinitialize")
 
@@ -201,6 +319,7 @@ def one_history(ctx, hid, nops):
     rng = ctx.rng
     T = Toks()
     mods, states, ops, trace, labels = [], [], [], [], []
+    from_module = {}            # id(state) -> the module it was built from (the states are kept alive in T.keep)
     case = {"history": hid, "seed": ctx.seed, "ops": labels}
     nontrivial = False
 
@@ -223,20 +342,23 @@ def one_history(ctx, hid, nops):
             na = [None, 0, int(rng.integers(1, 4))][int(rng.choice(3, p=[0.2, 0.1, 0.7]))]
             if kind == 0 and nh == 0:                             # BinaryRBM(nv, 0): outside what the property fixes
                 nh = None
-            m = BinaryRBM(nv, nh, **gpu_kw(ctx)) if kind == 0 else PurificationRBM(nv, nh, na, **gpu_kw(ctx))
-            for _, p in m.named_parameters():                     # non-zero biases: a "trained" module
-                if p.numel():
+            # stock class / user subclass of it; random weights / the documented flag zero_weights=True; sizes in any integer encoding
+            variant = ["stock", "subclass", "zero", "subclass+zero"][int(rng.choice(4, p=[0.5, 0.2, 0.2, 0.1]))]
+            m = make_module(ctx, kind, nv, nh, na, variant, **gpu_kw(ctx))
+            for n, p in m.named_parameters():                     # non-zero biases: a "trained" module
+                if p.numel() and not ("zero" in variant and n.startswith("weights")):
                     p.data.copy_(torch.tensor(rng.normal(size=tuple(p.shape)) + 0.1))
             mods.append(m)
             T.keep.append(m)
             ops.append([0, kind, nv, opt(nh), opt(na) if kind else [], weights_of(T, m)])
-            # the model's initialize_parameters gives zero biases; record the in-place writes that follow
-            labels.append("module(%s,%d,%s,%s)" % (type(m).__name__, nv, nh, na))
+            # the model's initialize_parameters gives drawn weights and zero biases; record the in-place writes that follow
+            # (for a zero_weights module: the weights are all-zero, written as such)
+            labels.append("module(%s,%d,%s,%s,%s)" % (type(m).__name__, nv, nh, na, variant))
             trace.append(None)
             for n, p in m.named_parameters():
-                if not n.startswith("weights"):
+                if not n.startswith("weights") or "zero" in variant:
                     ops.append([3, [0, len(mods) - 1], PN[n], T.val(p.data)])
-                    labels.append("module bias write")
+                    labels.append("module parameter write")
                     trace.append(None)
             trace[-1] = canon(dump())
             continue
@@ -247,23 +369,18 @@ def one_history(ctx, hid, nops):
             na = [None, 0, int(rng.integers(1, 4))][int(rng.choice(3, p=[0.25, 0.1, 0.65]))]
             if k < 2 and nh == 0:                                 # explicit 0 for a BinaryRBM: not fixed by the property
                 nh = None
-            args = (nv, nh) if k < 2 else (nv, nh, na)
+            args = (enc_sz(ctx, nv), enc_sz(ctx, nh)) if k < 2 else (enc_sz(ctx, nv), enc_sz(ctx, nh), enc_sz(ctx, na))
             gk = gpu_kw(ctx)
+            ocase = dict(ocase, args=[repr(a) for a in args])
             ok, s = ctx.call("constructor from sizes", ocase, lambda: CLS[k](*args, **gk))
             if not ok:
                 return
             states.append(s)
             T.keep.append(s)
             ops.append([1, k, nv, opt(nh), opt(na), weights_of(T, s.rbm_am), weights_of(T, s.rbm_ph) if k else []])
-            labels.append("%s(%d,%s,%s)" % (CLS[k].__name__, nv, nh, na))
+            labels.append("%s(%s)" % (CLS[k].__name__, ",".join(repr(a) for a in args)))
             # ---- oracle: shapes (with the documented defaults), zero biases, independent networks
-            if k < 2:
-                enh = nv if not nh else nh
-                want = [("weights", (enh, nv)), ("visible_bias", (nv,)), ("hidden_bias", (enh,))]
-            else:
-                enh = nv if nh is None else nh
-                ena = nv if na is None else na
-                want = [("weights_W", (enh, nv)), ("weights_U", (ena, nv)), ("visible_bias", (nv,)), ("hidden_bias", (enh,)), ("aux_bias", (ena,))]
+            want = want_shapes(k, nv, nh, na)
             for net in s.networks:
                 rbm = getattr(s, net)
                 got = [(n, tuple(p.shape)) for n, p in rbm.named_parameters()]
@@ -281,8 +398,7 @@ def one_history(ctx, hid, nops):
             k = int(rng.integers(0, 3))
             # only documented combinations are generated: module is a BinaryRBM for Positive/Complex states and a
             # PurificationRBM for DensityMatrix (the property says nothing about other combinations, so nothing is demanded)
-            want_t = "PurificationRBM" if k == 2 else "BinaryRBM"
-            cand = [i for i, mm in enumerate(mods) if type(mm).__name__ == want_t]
+            cand = [i for i, mm in enumerate(mods) if is_binary(mm) == (k != 2)]
             if not cand:
                 ctx.count("ctor_module:no_module_of_documented_type")
                 continue
@@ -298,18 +414,19 @@ def one_history(ctx, hid, nops):
             if k == 2 and rng.random() < 0.5:
                 kwargs["num_aux"] = int(rng.integers(1, 5))
             try:
-                s = CLS[k](nv_arg, module=m, **gpu_kw(ctx), **kwargs)
+                s = CLS[k](enc_sz(ctx, nv_arg), module=m, **gpu_kw(ctx), **{kk: enc_sz(ctx, vv) for kk, vv in kwargs.items()})
             except Exception as e:
                 exc = e
             ctx.count("ctor_module:args_%s" % ("agree" if nv_arg == int(m.num_visible) and not kwargs else "disagree"))
             states.append(s)
             ops.append([2, k, [0, mi]])
             labels.append("%s(%d,%s,module=%d:%s)" % (CLS[k].__name__, nv_arg, kwargs, mi, type(m).__name__))
-            expect_ok = not (k == 2 and type(m).__name__ == "BinaryRBM")
+            expect_ok = not (k == 2 and is_binary(m))
             if expect_ok:
                 ctx.require("module= constructor is accepted", s is not None, ocase, "" if s is not None else repr(exc))
             if s is not None:
                 T.keep.append(s)
+                from_module[id(s)] = m
                 ctx.require("module=: rbm_am IS the supplied module", s.rbm_am is m, ocase)
                 ctx.require("module=: the module's parameters are unchanged", same(snap(m), before), ocase)
                 ctx.require("module=: sizes are the module's",
@@ -320,6 +437,7 @@ def one_history(ctx, hid, nops):
                     ctx.require("module=: rbm_ph is a different object", s.rbm_ph is not m, ocase)
                     ctx.require("module=: rbm_ph shares no parameter storage with the module", not (ptrs(s.rbm_ph) & ptrs(m)), ocase)
                     ctx.require("module=: rbm_ph has equal names, shapes and values", same(snap(s.rbm_ph), before), ocase)
+                    check_phase_copy(ctx, s, m, "module=", ocase)
             ctx.count("ctor_module:%d:%s" % (k, "ok" if s is not None else "error"))
         elif r < 0.88 and (states or mods):                     # in-place write to one parameter of one network
             cands = [([0, i], m) for i, m in enumerate(mods)]
@@ -362,6 +480,9 @@ def one_history(ctx, hid, nops):
             labels.append("reinitialize(%d)" % j)
             for net in s.networks:
                 check_reinitialised(ctx, net, before[net], snap(getattr(s, net)), ocase)
+            if id(s) in from_module:
+                ctx.require("reinitialize: a state built from module= still uses the supplied module as its amplitude network",
+                            s.rbm_am is from_module[id(s)], ocase)
             weights_differ(ctx, s, "reinitialize", ocase)
             ctx.count("reinitialize")
         else:
@@ -545,17 +666,22 @@ def shape_cases(ctx):
         for nv in (1, 3):
             for nh in ((None, 0, 2, 4) if k == 2 else (None, 2, 4)):
                 for na in ((None, 0, 2) if k == 2 else (None,)):
-                    args = (nv, nh) if k < 2 else (nv, nh, na)
-                    case = {"shapes": CLS[k].__name__, "nv": nv, "nh": nh, "na": na}
-                    gk = gpu_kw(ctx)
-                    ok, s = ctx.call("constructor", case, lambda: CLS[k](*args, **gk))
-                    if not ok:
-                        continue
-                    ctx.case(case, nontrivial=(nh != nv))
-                    got = [[PN[n], list(p.shape)] for n, p in s.rbm_am.named_parameters()]
-                    mo = ints(m.call("ctor_shapes", k, nv, [] if nh is None else [nh], [] if na is None else [na]))
-                    ctx.agree_exact("constructor shapes", got, [[p, sh] for p, c, sh, v in mo[2]], case)
-                    ctx.agree_exact("constructor sizes", [int(s.rbm_am.num_visible), int(s.rbm_am.num_hidden), int(getattr(s.rbm_am, "num_aux", 0))], mo[1][1:], case)
+                    for rep in range(3):              # the size arguments in three different encodings (Python int / numpy integer / float)
+                        args = (enc_sz(ctx, nv), enc_sz(ctx, nh)) if k < 2 else (enc_sz(ctx, nv), enc_sz(ctx, nh), enc_sz(ctx, na))
+                        case = {"shapes": CLS[k].__name__, "nv": nv, "nh": nh, "na": na, "args": [repr(a) for a in args]}
+                        gk = gpu_kw(ctx)
+                        ok, s = ctx.call("constructor", case, lambda: CLS[k](*args, **gk))
+                        if not ok:
+                            continue
+                        ctx.case(case, nontrivial=(nh != nv))
+                        want = want_shapes(k, nv, nh, na)
+                        for net in s.networks:
+                            gotn = [(n, tuple(p.shape)) for n, p in getattr(s, net).named_parameters()]
+                            ctx.require("sizes constructor: requested / defaulted shapes (%s)" % net, gotn == want, case, {"got": gotn, "want": want})
+                        got = [[PN[n], list(p.shape)] for n, p in s.rbm_am.named_parameters()]
+                        mo = ints(m.call("ctor_shapes", k, nv, [] if nh is None else [nh], [] if na is None else [na]))
+                        ctx.agree_exact("constructor shapes", got, [[p, sh] for p, c, sh, v in mo[2]], case)
+                        ctx.agree_exact("constructor sizes", [int(s.rbm_am.num_visible), int(s.rbm_am.num_hidden), int(getattr(s.rbm_am, "num_aux", 0))], mo[1][1:], case)
 
 
 def run(ctx):
